@@ -123,6 +123,44 @@ theorem htlc_guards_pinned : Irismod.Gen.PureHtlc.guards =
      "msgServer.ClaimHTLC: secret, err := hex.DecodeString(msg.Secret); err != nil",
      "msgServer.ClaimHTLC: hashLock, transfer, direction, err := m.k.ClaimHTLC(ctx, id, secret); err != nil"] := rfl
 
+/-- every statement of these functions executed for its effect — a call whose result is dropped (store and bank
+writes, queue moves, hooks) or a write to a record field — with its nesting depth, in source order: a write that is
+dropped, duplicated, reordered or moved into or out of a branch breaks this -/
+theorem htlc_effects_pinned : Irismod.Gen.PureHtlc.effects =
+    ["IncCurrent: d1 supply.TimeLimitedCurrentSupply = supply.TimeLimitedCurrentSupply.Add(coin)",
+     "IncCurrent: d0 supply.CurrentSupply = supply.CurrentSupply.Add(coin)",
+     "IncCurrent: d0 k.SetAssetSupply(ctx, supply, coin.Denom)",
+     "DecCurrent: d0 supply.CurrentSupply = supply.CurrentSupply.Sub(coin)",
+     "DecCurrent: d0 k.SetAssetSupply(ctx, supply, coin.Denom)",
+     "IncIncoming: d0 supply.IncomingSupply = supply.IncomingSupply.Add(coin)",
+     "IncIncoming: d0 k.SetAssetSupply(ctx, supply, coin.Denom)",
+     "DecIncoming: d0 supply.IncomingSupply = supply.IncomingSupply.Sub(coin)",
+     "DecIncoming: d0 k.SetAssetSupply(ctx, supply, coin.Denom)",
+     "IncOutgoing: d0 supply.OutgoingSupply = supply.OutgoingSupply.Add(coin)",
+     "IncOutgoing: d0 k.SetAssetSupply(ctx, supply, coin.Denom)",
+     "DecOutgoing: d0 supply.OutgoingSupply = supply.OutgoingSupply.Sub(coin)",
+     "DecOutgoing: d0 k.SetAssetSupply(ctx, supply, coin.Denom)",
+     "createHTLT: d2 k.accountKeeper.SetAccount(ctx, acc)",
+     "UpdateWindow: d1 k.SetPreviousBlockTime(ctx, previousBlockTime)",
+     "UpdateWindow: d2 supply.TimeElapsed = newTimeElapsed",
+     "UpdateWindow: d2 supply.TimeElapsed = time.Duration(0)",
+     "UpdateWindow: d2 supply.TimeLimitedCurrentSupply = sdk.NewCoin(asset.Denom, math.ZeroInt())",
+     "UpdateWindow: d1 k.SetAssetSupply(ctx, supply, asset.Denom)",
+     "UpdateWindow: d0 k.SetPreviousBlockTime(ctx, ctx.BlockTime())",
+     "BeginBlocker: d0 k.IterateHTLCExpiredQueueByHeight( ctx, currentBlockHeight, func(id tmbytes.HexBytes, h types.HTLC) (stop bool) { _ = k.RefundHTLC(ctx, h, id) k.DeleteHTLCFromExpiredQueue(ctx, currentBlockHeight, id) ctx.EventManager().EmitEvents(sdk.Events{ sdk.NewEvent( types.EventTypeRefundHTLC, sdk.NewAttribute(types.AttributeKeyID, id.String()), ), }) ctx.Logger().Info(fmt.Sprintf(\"HTLC [%s] is refunded\", id.String())) return false }, )",
+     "BeginBlocker: d1 k.DeleteHTLCFromExpiredQueue(ctx, currentBlockHeight, id)",
+     "BeginBlocker: d0 k.UpdateTimeBasedSupplyLimits(ctx)",
+     "Keeper.CreateHTLC: d0 k.SetHTLC(ctx, htlc, id)",
+     "Keeper.CreateHTLC: d0 k.AddHTLCToExpiredQueue(ctx, htlc.ExpirationHeight, id)",
+     "Keeper.ClaimHTLC: d0 htlc.Secret = secret.String()",
+     "Keeper.ClaimHTLC: d0 htlc.State = types.Completed",
+     "Keeper.ClaimHTLC: d0 htlc.ClosedBlock = uint64(ctx.BlockHeight())",
+     "Keeper.ClaimHTLC: d0 k.SetHTLC(ctx, htlc, id)",
+     "Keeper.ClaimHTLC: d0 k.DeleteHTLCFromExpiredQueue(ctx, htlc.ExpirationHeight, id)",
+     "Keeper.RefundHTLC: d0 h.State = types.Refunded",
+     "Keeper.RefundHTLC: d0 h.ClosedBlock = uint64(ctx.BlockHeight())",
+     "Keeper.RefundHTLC: d0 k.SetHTLC(ctx, h, id)"] := rfl
+
 local macro "hsimp" "[" hs:ident,* "]" : tactic =>
   `(tactic| simp only [$[$hs:ident],*, decide_true, decide_false, if_true, if_false, obind_some, obind_none,
       Coin_Add_nat, Coin_IsLT_nat, Bool.not_true, Bool.not_false, Bool.true_and, Bool.false_and, Bool.and_true,
